@@ -187,7 +187,7 @@ def replay_once(profile, ops, faults, layouts, noise=False, timeout=60, ops_a=No
     if noise:
         cmd.append("--layout-noise")
     if log_trace:
-        cmd.append("--log-trace")
+        cmd += ["--log-mode", str(int(log_trace))]
     if reuse:
         cmd.append("--addr-reuse")
     if shallow:
@@ -229,7 +229,7 @@ def minimise(prop, v, budget_s=120):
     if v.get("ops_a"):
         return None  # a pair of routes to one ledger: deleting calls would change the ledger
 
-    lt = bool(v.get("log_trace", 0))
+    lt = int(v.get("log_trace", 0))
     bd = v.get("build", "checked")
     ru = bool(v.get("addr_reuse", 0))
     sc = int(v.get("shallow_clone", 0))
@@ -245,7 +245,7 @@ def minimise(prop, v, budget_s=120):
         # drop-glue-free payload case: "Raw k;E a>b ...;X extra...;O order..." - shrink edges and releases
         parts = {o.split()[0]: o.split()[1:] for o in ops}
         def build(pp):
-            return ["Raw " + " ".join(pp["Raw"]), "T " + " ".join(pp.get("T", ["0"])), "E " + " ".join(pp.get("E", [])), "X " + " ".join(pp.get("X", [])), "O " + " ".join(pp.get("O", []))]
+            return ["Raw " + " ".join(pp["Raw"]), "T " + " ".join(pp.get("T", ["0"])), "E " + " ".join(pp.get("E", [])), "X " + " ".join(pp.get("X", [])), "O " + " ".join(pp.get("O", [])), "W " + " ".join(pp.get("W", []))]
         for key in ("E", "O"):
             i = 0
             while i < len(parts.get(key, [])):
@@ -356,7 +356,7 @@ def write_replay(prop, v, mini):
         "property": prop, "profile": v["profile"], "engine": "sim", "kind": v["kind"], "cause": v["cause"],
         "seed": v["seed"], "run": v["run"], "exec": v.get("exec", 0), "layouts": layouts, "layout_noise": noise,
         "calls": ops, "faults": faults, "minimised": bool(mini), "original_calls": len(parse_ops(v["ops"])),
-        "calls_a": parse_ops(v["ops_a"]) if v.get("ops_a") else None, "tail": v.get("tail"), "log_trace": bool(v.get("log_trace", 0)), "build": v.get("build", "checked"), "addr_reuse": bool(v.get("addr_reuse", 0)), "shallow_clone": int(v.get("shallow_clone", 0)),
+        "calls_a": parse_ops(v["ops_a"]) if v.get("ops_a") else None, "tail": v.get("tail"), "log_trace": int(v.get("log_trace", 0)), "build": v.get("build", "checked"), "addr_reuse": bool(v.get("addr_reuse", 0)), "shallow_clone": int(v.get("shallow_clone", 0)),
         "expect": {"kind": final.get("kind"), "cause": final.get("cause"), "msg": final.get("msg"), "props": final.get("props")},
     }
     with open(path, "w") as f:
